@@ -279,3 +279,33 @@ Proof.
   - apply (mem_table_ext_ctx array cfg n V t pz M Hn HV Hc Inv Hnd Hd Hr Hneg Hl Hs Hx).
   - exact Hg.
 Qed.
+
+(* ... and for the answers computed from the LOADED BINARY FILE: the table decoded from the memory the trie loader sets up over the bytes of
+   the file the model writes (C04/TrieParse.v, C04_file_table_is_mem_table) is mem_table pointwise, so its invariants (C04_file_table_invariants)
+   and the two extra hypotheses transfer, and every derivation scored from the loaded file gives the left-to-right total and final state. *)
+From Kenlm Require Import C03.TrieImage C04.FileImage C04.TrieParse C04.TrieParseEnd C04.FileTables.
+Corollary C08_file_any_bracketing_sentence : forall (array : bool) cfg n V (t : atable) pz M rest,
+  (2 <= n)%nat -> (0 <= V < 2 ^ 32)%Z -> (0 <= cfg)%Z -> TInv n (alookup t) M -> NoDup (map fst t) ->
+  (forall w, alookup t [w] <> None <-> (Z.of_N w < V)%Z) ->
+  (forall k e, alookup t k = Some e -> (- 2 ^ 24 < e_prob e < 2 ^ 24 /\ - 2 ^ 24 < e_bo e < 2 ^ 24)%Z) ->
+  (forall k e, alookup t k = Some e -> (2 <= length k)%nat -> (e_prob e <= 0)%Z) ->
+  (forall k e, alookup t k = Some e -> length k = n -> e_bo e = 0%Z) ->
+  (Z.of_nat (n * length t) < 2 ^ 57)%Z ->
+  (forall k e, alookup t k = Some e -> e_ext e = true -> (2 <= length k)%nat -> exists x, alookup t (x :: k) <> None) ->
+  let T' := file_table array cfg n V (trie_counts n t) (trie_image array cfg n t pz ++ rest) in
+  forall b fast items, good_items T' items ->
+  eval_tree n T' false (bos_state T' b) (Rule true fast items) =
+  ({| c_left := {| l_ptrs := []; l_full := true |};
+      c_right := (if yield_items items then bos_state T' b else get_state n T' (rev (yield_items items) ++ [b])) |},
+   fold_right Z.add 0%Z (spec_seq n M [b] (yield_items items))).
+Proof.
+  intros array cfg n V t pz M rest Hn HV Hc Inv Hnd Hd Hr Hneg Hl Hs Hx T' b fast items Hg.
+  assert (E : forall k, T' k = mem_table array cfg n V t pz k)
+    by (intros k; exact (file_table_is_mem_table array cfg n V t pz M Hn HV Hc Inv Hnd Hd Hr Hs rest k)).
+  apply (C08_any_bracketing_sentence n T' M false Hn (file_table_invariants array cfg n V t pz M rest Hn HV Hc Inv Hnd Hd Hr Hneg Hl Hs)).
+  - intros _ k e H. rewrite E in H. apply (mem_table_rest array cfg n V t pz k e H).
+  - intros k e H He Hlen. rewrite E in H.
+    destruct (mem_table_ext_ctx array cfg n V t pz M Hn HV Hc Inv Hnd Hd Hr Hneg Hl Hs Hx k e H He Hlen) as [x Hxx].
+    exists x. rewrite E. exact Hxx.
+  - exact Hg.
+Qed.
